@@ -108,56 +108,86 @@ def parse_assumptions(output, printed):
     return dict(zip(printed, blocks)), len(blocks)
 
 
+def prop_files(prop_id):
+    """Props/<id>.v plus companion files Props/<id><lower-case suffix>.v (e.g. C13tx.v, C15p.v, C08v.v)."""
+    out = []
+    d = os.path.join(COQ, "Props")
+    for f in sorted(os.listdir(d)):
+        m = re.fullmatch(re.escape(prop_id) + r"([a-z]*)\.v", f)
+        if m:
+            out.append(f[:-2])
+    return out
+
+
 def check(prop_id, clean=False, coqchk=False):
     """Returns dict: obligations, discharged, names, stmts, assumptions, problems, log."""
     res = dict(obligations=0, discharged=0, names=[], stmts={}, assumptions={}, problems=[], checker_cmd="")
-    prop_v = os.path.join(COQ, "Props", prop_id + ".v")
-    target = "Props/%s.vo" % prop_id
-    res["checker_cmd"] = "cd coq && make -j16 %s  (coq_makefile, coqc 8.16.1; Print Assumptions under every theorem)" % target
-    if not os.path.exists(prop_v):
+    files = prop_files(prop_id)
+    targets = ["Props/%s.vo" % f for f in files]
+    res["checker_cmd"] = "cd coq && make -j16 %s  (coq_makefile, coqc 8.16.1; Print Assumptions under every theorem)" % " ".join(targets)
+    if not files or prop_id not in files:
         res["problems"].append("no Props/%s.v" % prop_id)
         return res
-    names, printed, stmts = theorems_of(prop_v)
-    res["names"], res["stmts"] = names, stmts
-    res["obligations"] = len(names)
-    for n in names:
-        if n not in printed:
-            res["problems"].append("theorem %s has no Print Assumptions" % n)
     res["problems"] += scan_sources()
-
     build.coq_makefile()
     if clean:
         sh(["make", "clean"], cwd=COQ, timeout=300)
-    # force recompilation of the property file so that its output is captured
-    for ext in (".vo", ".glob", ".vos", ".vok"):
-        p = os.path.join(COQ, "Props", prop_id + ext)
-        if os.path.exists(p):
-            os.remove(p)
-    drivers = ["Run/D%s.vo" % prop_id] if os.path.exists(os.path.join(COQ, "Run", "D%s.v" % prop_id)) else []
-    ok, text = build.coq_make([target] + drivers)
-    res["log"] = text[-6000:]
+    per_file = {}
+    for f in files:
+        names, printed, stmts = theorems_of(os.path.join(COQ, "Props", f + ".v"))
+        per_file[f] = (names, printed)
+        res["names"] += names
+        res["stmts"].update(stmts)
+        res["obligations"] += len(names)
+        for n in names:
+            if n not in printed:
+                res["problems"].append("theorem %s has no Print Assumptions" % n)
+        # force recompilation of the property file so that its output is captured
+        for ext in (".vo", ".glob", ".vos", ".vok"):
+            p = os.path.join(COQ, "Props", f + ext)
+            if os.path.exists(p):
+                os.remove(p)
+    run_dir = os.path.join(COQ, "Run")
+    drivers = ["Run/%s" % x[:-2] + ".vo" for x in sorted(os.listdir(run_dir)) if x.endswith(".v")]
+    ok, text = build.coq_make(drivers, timeout=3000)
     if not ok:
-        m = re.search(r'File "([^"]+)", line (\d+).*?\n(Error:.*?)(?:\n\n|\Z)', text, re.S)
-        where = "%s:%s %s" % (m.group(1), m.group(2), " ".join(m.group(3).split())[:300]) if m else text[-600:]
-        res["problems"].append("proof obligations do not compile: " + where)
+        res["problems"].append("the model / drivers do not compile: " + _first_error(text))
+        res["log"] = text[-6000:]
         return res
-    amap, nblocks = parse_assumptions(text, printed)
-    if nblocks != len(printed):
-        res["problems"].append("expected %d Print Assumptions outputs, saw %d" % (len(printed), nblocks))
-    res["assumptions"] = amap
-    for n in names:
-        axs = amap.get(n)
-        if axs is None:
+    logs = []
+    for f in files:
+        ok, text = build.coq_make(["Props/%s.vo" % f], jobs=NCPU_PROOF)
+        logs.append(text[-3000:])
+        if not ok:
+            res["problems"].append("proof obligations do not compile: " + _first_error(text))
             continue
-        bad = [a for a in axs if a not in ALLOWED_PRIMITIVES and a not in ALLOWED_STDLIB_AXIOMS]
-        if bad:
-            res["problems"].append("theorem %s depends on unexpected axioms: %s" % (n, ", ".join(bad)))
-        else:
-            res["discharged"] += 1
+        names, printed = per_file[f]
+        amap, nblocks = parse_assumptions(text, printed)
+        if nblocks != len(printed):
+            res["problems"].append("%s: expected %d Print Assumptions outputs, saw %d" % (f, len(printed), nblocks))
+        res["assumptions"].update(amap)
+        for n in names:
+            axs = amap.get(n)
+            if axs is None:
+                continue
+            bad = [a for a in axs if a not in ALLOWED_PRIMITIVES and a not in ALLOWED_STDLIB_AXIOMS]
+            if bad:
+                res["problems"].append("theorem %s depends on unexpected axioms: %s" % (n, ", ".join(bad)))
+            else:
+                res["discharged"] += 1
+    res["log"] = "\n".join(logs)[-6000:]
     if coqchk:
-        rc, out, err = sh(["coqchk", "-silent", "-o", "-Q", ".", "HDW", "HDW.Props." + prop_id], cwd=COQ, timeout=3000)
+        rc, out, err = sh(["coqchk", "-silent", "-o", "-Q", ".", "HDW"] + ["HDW.Props." + f for f in files], cwd=COQ, timeout=3000)
         txt = out.decode("utf8", "replace") + err.decode("utf8", "replace")
         res["coqchk"] = txt[-3000:]
         if rc != 0:
             res["problems"].append("coqchk failed: " + txt[-500:])
     return res
+
+
+NCPU_PROOF = 16
+
+
+def _first_error(text):
+    m = re.search(r'File "([^"]+)", line (\d+).*?\n(Error:.*?)(?:\n\n|\Z)', text, re.S)
+    return "%s:%s %s" % (m.group(1), m.group(2), " ".join(m.group(3).split())[:300]) if m else text[-600:]
